@@ -450,8 +450,104 @@ def check_C12(ctx):
                                    "mapping key, flow sequence item, newtype variant payload"])
 
 
+# ------------------------------------------------------------------------------------------------
+# C13 / C20 (value grammar of Emitter.tla)
+# ------------------------------------------------------------------------------------------------
+def _tree_has(v, pred):
+    return pred(v) or any(_tree_has(x, pred) for x in v.get("xs", []))
+
+
+def emitter_matchers():
+    def opt_bits(d):
+        o = d.get("opt", "")
+        return int(o[1:]) if o.startswith("m") and o[1:].isdigit() else 0
+
+    def empty_braces_off(rec, d):
+        return isinstance(d, dict) and opt_bits(d) & 4 and _tree_has(d["tree"], lambda v: v["t"] in ("Seq", "Map", "Struct", "Tup") and not v["xs"])
+
+    def complex_key_indent4(rec, d):
+        if not (isinstance(d, dict) and opt_bits(d) & 1):
+            return False
+        def has(v):
+            if v["t"] == "Map":
+                for i in range(0, len(v["xs"]), 2):
+                    val = v["xs"][i + 1]
+                    while val["t"] in ("Some", "NS", "FlowSeq", "FlowMap", "Commented", "SpaceAfter") and val["xs"]:
+                        val = val["xs"][0]
+                    if v["xs"][i]["t"] in ("Seq", "Struct", "Map", "Tup") and val["t"] in ("Map", "Struct", "SV", "NV", "TV") and (len(val["xs"]) >= 2 or val["t"] in ("SV", "NV", "TV")):
+                        return True
+            return False
+        return _tree_has(d["tree"], has)
+    def bare(v):
+        return v["xs"][0] if v["t"] in ("FlowSeq", "FlowMap", "Commented", "SpaceAfter") else v
+
+    def flowmap_complex_key(rec, d):
+        def complex_map(m):
+            return m["t"] == "Map" and any(bare(m["xs"][i])["t"] not in ("S", "I", "B", "U", "None", "UV", "US") for i in range(0, len(m["xs"]), 2))
+        def has(v):
+            return v["t"] in ("FlowMap", "FlowSeq") and _tree_has(v, complex_map)
+        return isinstance(d, dict) and "non-scalar key" in d.get("text", "") and _tree_has(d["tree"], has)
+
+    def variant_inside_flow(rec, d):
+        def inside(v):
+            return _tree_has(v, lambda x: x["t"] in ("NV", "TV", "SV"))
+        return isinstance(d, dict) and _tree_has(d["tree"], lambda v: v["t"] in ("FlowSeq", "FlowMap") and inside(v))
+    def empty_lit_in_option(rec, d):
+        def has(v):
+            return v["t"] == "Some" and v["xs"] and bare(v["xs"][0])["t"] in ("Lit", "Fold") and bare(v["xs"][0])["s"] == ""
+        return isinstance(d, dict) and _tree_has(d["tree"], has)
+    return {"C20-empty-litstr-in-option": empty_lit_in_option, "C13-empty-as-braces-off": empty_braces_off, "C13-complex-key-value-map-indent4": complex_key_indent4,
+            "C20-empty-as-braces-off": empty_braces_off, "C20-complex-key-value-map-indent4": complex_key_indent4,
+            "C20-flowmap-complex-key": flowmap_complex_key, "C20-variant-inside-flow": variant_inside_flow}
+
+
+def emitter_check(ctx, which):
+    q = ctx.quick()
+    decorate = which == "C20"
+    cases = ctx.path("cases.ndjson")
+    depth = 1 if (q or decorate) else 2
+    if decorate and not q:
+        depth = 1
+    run_mc(ctx, "MC_Emitter", dict(Depth=depth, Decorate=decorate), ["InvDataIdempotent", "InvSameData", "EmitCase"], workers=8, timeout=6000,
+           cases_out=cases, label="MC_Emitter")
+    ctx.exhaustive = True
+    recs = ctx.path("recs.ndjson")
+    st = run_vh(ctx, ["c13", "--cases", cases, "--out", recs, "--random", (6000 if q else 150000), "--seed", ctx.seed,
+                      "--all-options", 0 if q else 1, "--decorate", 1 if decorate else 0], timeout=20000)
+    ctx.evaluations += st["records"]
+    ctx.distinct_nontrivial += st["nontrivial"]
+    ctx.samples += st["samples"]
+    mism = run_tv(ctx, "TV_Emitter", recs, timeout=6000)
+    # the detail carries tree/opt/text; no need to look the record up again
+    classify_mismatches(ctx, mism, None, emitter_matchers(),
+                        "emitted text is not one document that reads back as the value written (Emitter!SameData)" if which == "C13"
+                        else "a presentation wrapper or option changed the data (Emitter!SameData / untyped tree comparison)")
+    rule = ("values: every tree of Emitter!D1 (quick; 740 values) / D2 (thorough; ~19000) over the full Serde data model (unit, bool, int, "
+            "string, option, newtype/tuple/unit structs, sequences, tuples, maps with string / integer / composite keys, structs, all four "
+            "enum variant kinds) enumerated by TLC, each under every option vector of a covering set (quick: 17) / all 128 combinations "
+            "(thorough); plus random values of depth <= 4 under default + one rotating option vector; non-trivial = distinct values with "
+            "more than one node")
+    if decorate:
+        rule = ("decorated values: every value of Emitter!D1 with one presentation wrapper at the root or around one child (FlowSeq, FlowMap, "
+                "Commented with three comment texts, SpaceAfter, LitStr, FoldStr), enumerated by TLC; plus random values of depth <= 4 "
+                "with 1-3 wrappers at random positions and adversarial comment texts; option vectors as for C13")
+    return finish(ctx, "model_checking", rule,
+                  ASSUME_COMMON + ["values are read back through a DeserializeSeed of the same shape issuing the typed deserialize_* calls",
+                                   "Some(x) where x is written as null (None, unit) is compared as None: YAML has a single null"])
+
+
+def check_C13(ctx):
+    return emitter_check(ctx, "C13")
+
+
+def check_C20(ctx):
+    return emitter_check(ctx, "C20")
+
+
 CHECKS = {
     "C02": check_C02,
+    "C13": check_C13,
+    "C20": check_C20,
     "C12": check_C12,
     "C08": check_C08,
     "C09": check_C09,
